@@ -110,6 +110,7 @@ type cfg struct {
 	Fault   bool // the environment may garble a change event (schema change)
 	Delay   int  // binlog update delay in ms
 	WTR     int  // reactive.WriteThenReadDelay in ms
+	Reorder int  // 1, 2: the database table declares its columns in another order than the struct (rows in change events follow the database)
 	MetaBad bool // the column list cannot be fetched (driver.ErrBadConn) while change events arrive: they are undecodable
 }
 
@@ -117,6 +118,9 @@ func (c cfg) name() string {
 	s := fmt.Sprintf("queries=%v writers=%v fault=%t delay=%d wtr=%d", c.Queries, c.Writers, c.Fault, c.Delay, c.WTR)
 	if c.MetaBad {
 		s += " metabad=true"
+	}
+	if c.Reorder != 0 {
+		s += fmt.Sprintf(" reorder=%d", c.Reorder)
 	}
 	return s
 }
@@ -163,6 +167,9 @@ func parse(s string) cfg {
 	if strings.Contains(s, "metabad=true") {
 		c.MetaBad = true
 	}
+	if i := strings.Index(s, "reorder="); i >= 0 {
+		fmt.Sscan(s[i+8:], &c.Reorder)
+	}
 	return c
 }
 
@@ -204,6 +211,27 @@ func item(c cfg) *explore.Item {
 		bl.SetUpdateDelay(time.Duration(c.Delay) * time.Millisecond)
 		if c.MetaBad {
 			fdb.FailMeta = driver.ErrBadConn
+		}
+		// database column order: struct order is id, grp, name, opt
+		dbOrder := []int{0, 1, 2, 3}
+		if c.Reorder != 0 {
+			// columns of scan-compatible types change places (a mis-mapped value still decodes)
+			dbOrder = [][]int{nil, {1, 0, 2, 3}, {0, 3, 2, 1}}[c.Reorder] // grp,id,name,opt | id,opt,name,grp
+			var names []string
+			for _, j := range dbOrder {
+				names = append(names, tbl.Cols[j])
+			}
+			fdb.MetaCols = map[string][]string{"items": names}
+		}
+		reorder := func(r []interface{}) []interface{} {
+			if r == nil || c.Reorder == 0 {
+				return r
+			}
+			out := make([]interface{}, len(r))
+			for k, j := range dbOrder {
+				out[k] = r[j]
+			}
+			return out
 		}
 		garbled := 0
 		fdb.OnCommit = func(changes []fakesql.Change) {
@@ -269,6 +297,11 @@ func item(c cfg) *explore.Item {
 							re.Rows[i] = re.Rows[i][:len(re.Rows[i])-1]
 						}
 						garbled++
+					}
+				}
+				for i := range re.Rows {
+					if len(re.Rows[i]) == 4 {
+						re.Rows[i] = reorder(re.Rows[i])
 					}
 				}
 				ev.Event = re
@@ -393,6 +426,9 @@ func configs(tier string) []cfg {
 	for _, q := range []int{0, 3, 5} {
 		out = append(out, cfg{Queries: []int{q}, Writers: [][]int{{q % 3, 3}}, MetaBad: true})
 	}
+	for q := range filters() {
+		out = append(out, cfg{Queries: []int{q}, Writers: [][]int{{q % 4, 3 + q%5}}, Reorder: 1 + q%2})
+	}
 	out = append(out, cfg{Queries: []int{0}, Writers: [][]int{{2}}, Delay: 5}, cfg{Queries: []int{0}, Writers: [][]int{{3}}, WTR: 3},
 		cfg{Queries: []int{2}, Writers: [][]int{{4}}, Delay: 5, WTR: 3, Fault: true})
 	if tier == "thorough" {
@@ -415,5 +451,5 @@ func run(rp *explore.Report, tier string) {
 func init() {
 	reg.Register(&reg.Harness{Property: "C07", Name: "c07/livesql", Level: "model_checking", Bounds: [2]int{2, 3}, Run: run,
 		Item: func(name string) *explore.Item { return item(parse(name)) },
-		Rule: "items = 1-2 live queries (rerunner around LiveDB.Query; filters on key, int32 column, two columns, NULL / pointer column, empty filter, other Go type) x 1-2 writers issuing inserts, updates moving rows into and out of the filter, deletes, upserts through sqlgen over an in-memory driver whose commits emit replication-shaped row events (typed ints, NULLs) into the real RunPollLoop through an in-process streamer, optional update delay / WriteThenReadDelay on the virtual clock, a column-list fetch that fails with driver.ErrBadConn, and explorer-chosen garbled events (extra column, unscannable value = schema change); all schedules within the deviation bound. Oracle at quiescence: rows held by each live query == filter evaluated on the final table; after Stop/close every goroutine ends and no dependency stays tracked"})
+		Rule: "items = 1-2 live queries (rerunner around LiveDB.Query; filters on key, int32 column, two columns, NULL / pointer column, empty filter, other Go type) x 1-2 writers issuing inserts, updates moving rows into and out of the filter, deletes, upserts through sqlgen over an in-memory driver whose commits emit replication-shaped row events (typed ints, NULLs) into the real RunPollLoop through an in-process streamer, optional update delay / WriteThenReadDelay on the virtual clock, a database column order that differs from the struct's, a column-list fetch that fails with driver.ErrBadConn, and explorer-chosen garbled events (extra column, unscannable value = schema change); all schedules within the deviation bound. Oracle at quiescence: rows held by each live query == filter evaluated on the final table; after Stop/close every goroutine ends and no dependency stays tracked"})
 }
